@@ -232,3 +232,66 @@ func dumpSchema(s *ast.Schema) string {
 	}
 	return out
 }
+
+func sameErrorLists(a, b gqlerror.List) bool {
+	if len(a) != len(b) {
+		return false
+	}
+	for i := range a {
+		if a[i].Rule != b[i].Rule || a[i].Message != b[i].Message || len(a[i].Locations) != len(b[i].Locations) {
+			return false
+		}
+		for j := range a[i].Locations {
+			if a[i].Locations[j] != b[i].Locations[j] {
+				return false
+			}
+		}
+	}
+	return true
+}
+
+// Deterministic: C10. The same document is validated (a) twice as the same
+// tree, (b) as fresh parses in the same run, and (c) as fresh parses while
+// every `range` over a map visits its entries in another order (three order
+// policies under the engine; natively Go's own randomised order, 40 runs).
+func Deterministic() {
+	verifrt.SetOpt("merge", 0)
+	verifrt.SetOpt("unwind", 200)
+	schema := LoadTestSchema(verifrt.Param("schema", 0))
+	verifrt.Commit()
+	b := &B{}
+	Shapes[verifrt.Param("shape", 0)](b)
+	parse := func() *ast.QueryDocument {
+		src := hparse.Install(b.toks)
+		doc, err := parser.ParseQuery(src)
+		if err != nil {
+			verifrt.Fail("H.shape-does-not-parse")
+		}
+		return doc
+	}
+	docA := parse()
+	errsA := validator.Validate(schema, docA)
+	errsA2 := validator.Validate(schema, docA)
+	verifrt.Assert(sameErrorLists(errsA, errsA2), "C10.same-tree-again")
+	errsB := validator.Validate(schema, parse())
+	verifrt.Assert(sameErrorLists(errsA, errsB), "C10.fresh-parse-same-process")
+	if len(errsA) > 0 {
+		verifrt.Cover("C10.compared-nonempty-lists")
+	}
+	if verifrt.Native() {
+		same := true
+		for i := 0; i < 40; i++ {
+			if !sameErrorLists(errsA, validator.Validate(schema, parse())) {
+				same = false
+			}
+		}
+		verifrt.Assert(same, "C10.map-order-independent")
+		return
+	}
+	for policy := 1; policy <= 3; policy++ {
+		verifrt.SetOpt("maporder", policy)
+		errsP := validator.Validate(schema, parse())
+		verifrt.SetOpt("maporder", 0)
+		verifrt.Assert(sameErrorLists(errsA, errsP), "C10.map-order-independent")
+	}
+}
